@@ -81,6 +81,12 @@ def run(tier, seed):
         if f2["kind"] != f["kind"] or abs(f2["acc"] - f["acc"]) > 2e-3 * max(f2["acc"], f["acc"]):
             b.knew("o", spec2, rng.choice(STORES), rng.choice(STORES), exact); b.kadd("o", 1.5); b.kadd("o", -2.5)
             j0 = b.emit("kobs k"); j1 = b.emit("kobs o"); b.emit("kmerge k o", "err mapping-mismatch"); b.emit("kobs k", ("same", j0)); b.emit("kobs o", ("same", j1))
+        # ... or the same kind and base with a different index offset (mappings rebuilt from a base and an offset, as decoders build them)
+        if rng.random() < 0.6:
+            spec3 = "%s:g:%s:%s" % (f["kind"], f2h(f["gamma"]), f2h(f["off"] + rng.choice([1.0, -0.5, 40.0, 1e-6, -1e-3])))
+            b.knew("o2", spec3, rng.choice(STORES), rng.choice(STORES), exact); b.kadd("o2", 1.5); b.kadd("o2", -2.5)
+            j0 = b.emit("kobs k"); j1 = b.emit("kobs o2"); b.emit("kmerge k o2", "err mapping-mismatch"); b.emit("kobs k", ("same", j0)); b.emit("kobs o2", ("same", j1))
+            j1 = b.emit("kobs o2"); b.emit("kmerge o2 k", "err mapping-mismatch"); b.emit("kobs o2", ("same", j1))
         # empty sketch
         b.kclear("k")
         for q in (0.0, 0.5, 1.0): b.emit("q k %s" % f2h(q), "err empty")
